@@ -230,6 +230,51 @@ def fv_occurrences_with_holes(R, t, c):
     return R.fv_occurrences(t, c)
 
 
+def panic_outcome(ex, p, roots, gam, info, tag=""):
+    """A panic inside unify: a template node under a *possible* binder may carry an index that is out
+    of scope once its ancestor turns out not to bind -- then the harness, not gram, violated unify's
+    precondition (well-scoped terms) and the path is outside the claim.  A panic on a well-scoped pair
+    is reported."""
+    m = ex.path_model()
+    scoped = False
+    if m is not None:
+        case = case_of(ex, m, roots, gam)
+        acc = set()
+        _free(case["a"], 0, acc, case.get("cells", {}))
+        _free(case["b"], 0, acc, case.get("cells", {}))
+        scoped = all(v < len(gam) for v in acc)
+    if scoped:
+        ex.check(False, tag + "PANIC %s (%s.rs:%s)" % (p.msg, p.module, p.line), info=info)
+    else:
+        ex.count("outside:ill-scoped pair (precondition of unify)")
+
+
+def _free(j, cutoff, acc, cells):
+    c = j["v"]
+    if c == "Variable":
+        if j["index"] >= cutoff:
+            acc.add(j["index"] - cutoff)
+    elif c == "Unifier":
+        # a hole of shift k stands for a term in the scope k binders up
+        inner = cells.get(str(j.get("cell")))
+        if inner is not None:
+            _free(inner, max(0, cutoff - j.get("shift", 0)), acc, cells)
+        elif j.get("shift", 0) > cutoff:
+            acc.add(j["shift"] - cutoff - 1 + 10 ** 6)       # the hole itself lives outside the context
+    elif c in ("Lambda", "Pi"):
+        _free(j["kids"][0], cutoff, acc, cells)
+        _free(j["kids"][1], cutoff + 1, acc, cells)
+    elif c == "Let":
+        n = len(j["defs"])
+        for d in j["defs"]:
+            _free(d["ann"], cutoff + n, acc, cells)
+            _free(d["def"], cutoff + n, acc, cells)
+        _free(j["body"], cutoff + n, acc, cells)
+    else:
+        for k in j.get("kids", []):
+            _free(k, cutoff, acc, cells)
+
+
 def run_pair(ex, it, a, b, roots, scope_of, tag):
     gam, ctx_ref = gamma_options(ex)
     before = list(gam)
@@ -238,6 +283,9 @@ def run_pair(ex, it, a, b, roots, scope_of, tag):
         r = it.call("unifier", "unify", [a, b, gam])
     except FuelExhausted:
         ex.count("fuel")
+        return
+    except PanicEx as p:
+        panic_outcome(ex, p, roots, before, info, tag)
         return
     ok = it.truth(r)
     # (4) context restored
@@ -297,6 +345,9 @@ def run_pair_scoped(ex, it, a, b, sa, sb, tag):
     except FuelExhausted:
         ex.count("fuel")
         return
+    except PanicEx as p:
+        panic_outcome(ex, p, roots, before, info, tag)
+        return
     ok = it.truth(r)
     if not (len(gam) == len(before) and all(x is y for x, y in zip(gam, before))):
         ex.check(False, tag + "U4.context-changed", info=info)
@@ -344,12 +395,15 @@ def make_reflexive(H, k):
             it.call_depth = 0
             gam, ctx_ref = gamma_options(ex)
             si.scope = len(gam)
+            info = lambda m: case_of(ex, m, (t, t), gam)
             try:
                 r = it.call("unifier", "unify", [t, t, gam])
             except FuelExhausted:
                 ex.count("fuel")
                 return
-            info = lambda m: case_of(ex, m, (t, t), gam)
+            except PanicEx as p:
+                panic_outcome(ex, p, (t, t), list(gam), info)
+                return
             ex.check(it.truth(r), "R.hole-free-term-unifies-with-itself", info=info)
         return ex, body, None
     return make
